@@ -15,4 +15,4 @@ class Job:
 
     @property
     def key(self):
-        return self.fn + ("" if not self.part else "[" + ",".join(f"{k}={v}" for k, v in sorted(self.part.items())) + "]")
+        return self.fn + ("" if not self.part else "[" + ",".join(f"{k}={v}" for k, v in sorted(self.part.items()) if not k.startswith("_")) + "]")
